@@ -1,7 +1,10 @@
-(* C04 — Lexing is faithful: element boundaries and types follow IEEE 488.2 section 7 (rejection half; faithfulness half below when proved)
+(* C04 — Lexing is faithful: element boundaries and types follow IEEE 488.2 section 7
    Statements only: each theorem is closed by `exact` of a lemma proved in the *_proofs.v files. *)
-From VF Require Import Base Gen_Errors Lexer Lexer_proofs.
+From VF Require Import Base Gen_Errors Fmt Lexer Grammar Lexer_proofs Grammar_proofs.
 Open Scope N_scope.
+
+Theorem C04_lex_faithful : forall m, wf_msg m = true -> tokenize (render_msg m) = Val (map IOk (tokens_of m)).
+Proof. exact lex_faithful. Qed.
 
 Theorem C04_lex_total : forall input, exists ts, tokenize input = Val ts.
 Proof. exact lex_total. Qed.
@@ -97,6 +100,7 @@ Theorem C04_missing_separator_after_string : forall q body w y rest com, ((q =? 
   lex_next (mkLexer (q :: body ++ q :: w ++ y :: rest) false com) = Val (SErr SuffixNotAllowed).
 Proof. exact missing_separator_after_string. Qed.
 
+Print Assumptions C04_lex_faithful.
 Print Assumptions C04_lex_total.
 Print Assumptions C04_lex_params_total.
 Print Assumptions C04_lex_progress.
